@@ -82,9 +82,9 @@ def h(cfg):
     check_all(items)
 
 
-INHERIT = dict(sched.PLAIN, n=4, fixed_parent=[-1, -1, 1, -1], E=8, scenarios=[(0, -1)])       # roots b, S{a}, x
-INHERIT_B = dict(sched.PLAIN, n=4, fixed_parent=[-1, -1, -1, 2], E=8, scenarios=[(0, -1)])     # roots x, b, S{a}
-SUMMARY_PRED = dict(sched.PLAIN, n=4, fixed_parent=[-1, 0, 0, -1], resources=['r', 'q'], E=8, scenarios=[(0, -1)])  # S{a, b}, x
+INHERIT = dict(sched.PLAIN, n=4, fixed_parent=[-1, -1, 1, -1], link_pairs=[(0, 2), (1, 3), (0, 3)], E=8, scenarios=[(0, -1)])       # roots b, S{a}, x
+INHERIT_B = dict(sched.PLAIN, n=4, fixed_parent=[-1, -1, -1, 2], link_pairs=[(0, 2), (1, 3), (0, 1)], E=8, scenarios=[(0, -1)])     # roots x, b, S{a}
+SUMMARY_PRED = dict(sched.PLAIN, n=4, fixed_parent=[-1, 0, 0, -1], link_pairs=[(0, 3), (1, 2)], resources=['r', 'q'], E=8, scenarios=[(0, -1)])  # S{a, b}, x
 
 
 def harnesses(tier):
